@@ -209,7 +209,7 @@ MANIFEST_TEXT["C14"] = {
 C04_H = ["harness/c04/c04.go", "harness/c05/c05.go"]
 PROPS["C04"] = {
     "runs": [
-        {"pkg": "consensus", "harness": C04_H, "run": "^VH_C04_", "params": {"quick": {"maxn": 5, "maxproof": 3, "v1": 1}, "thorough": {"maxn": 8, "maxproof": 4, "v1": 1}},
+        {"pkg": "consensus", "harness": C04_H, "run": "^VH_C04_", "params": {"quick": {"maxn": 5, "maxproof": 3, "v1": 1}, "thorough": {"maxn": 6, "maxproof": 3, "v1": 1}},
          "flags": {"quick": ["-maxpaths", "300000"], "thorough": ["-maxpaths", "3000000", "-timeout", "60000"]},
          "must_reach": {"VH_C04_MembershipSound": ["accepted-siacoin", "accepted-siafund", "accepted-v2contract", "accepted-chainindex", "accepted-v1contract"],
                         "VH_C04_MembershipComplete": ["end"], "VH_C04_TransactionElements": ["accepted"]},
@@ -217,7 +217,7 @@ PROPS["C04"] = {
     ],
     "tv_runs": {"quick": 2, "thorough": 6},
     "bounds": {"quick": "forests of n = 1..5 genuine leaves (element kinds siacoin, siafund, v2 contract, chain index, v1 contract by position; all fields and spent flags symbolic), candidate of every kind with symbolic fields, symbolic leaf index, proof length 0..3 with symbolic hashes; v1 contracts with 2 valid + 2 missed outputs and currency byte-length class in {1,9,16}",
-               "thorough": "n = 1..8, proof length 0..4"},
+               "thorough": "n = 1..6, proof length 0..3 (n = 1..8 with proofs up to 4 did not finish within 40 minutes)"},
     "outside": ["larger forests / longer proofs", "'taken from a reverted branch' is decided as 'not among the leaves of the current forest' (C05/C06 show the forest after revert is the parent forest)",
                 "v1 parents supplied in the block supplement are checked with the same containsLeaf code path through validateSupplement in the C10/C02 validator harnesses"],
     "stubs": [],
